@@ -9,14 +9,35 @@
 
 static unsigned long c14_f, c14_base;
 
-static void c14_arm_range(unsigned long lo, unsigned long hi)
+/* Choose the failing position as a solver variable and CASE-SPLIT on it: `call` is symbolically executed once per
+ * position with c14_f a constant (so pointer NULL-ness, lengths and counters stay constants inside each case - with a
+ * symbolic vp_alloc_fail_at every allocation result is an ite(NULL, object) and nothing closes: measured), every case
+ * ends the path (return), and the solver picks the case.  One query still covers every allocation site. */
+#define C14_SPLIT(K, call)                                  \
+  do {                                                      \
+    unsigned long c14_i, c14_pick = (unsigned long)vp_range(0, (K)); \
+    for (c14_i = 0; c14_i <= (unsigned long)(K); c14_i++)   \
+      if (c14_pick == c14_i) {                              \
+        c14_f = c14_i;                                      \
+        call;                                               \
+        return;                                             \
+      }                                                     \
+  } while (0)
+
+/* from now on the c14_f-th allocation fails (c14_f chosen by C14_SPLIT; 0 = none) */
+static void c14_arm(unsigned long kmax)
 {
-  c14_f            = (unsigned long)vp_range(lo, hi);
+  (void)kmax;
   c14_base         = vp_alloc_calls;
   vp_alloc_fail_at = c14_f ? c14_base + c14_f : 0;
 }
-static void c14_arm(unsigned long kmax) { c14_arm_range(0, kmax); }
-static int  c14_injected(void)
+/* fully symbolic variant (no case split) for scenarios that are cheap enough */
+static void c14_arm_symbolic(unsigned long kmax)
+{
+  c14_f = (unsigned long)vp_range(0, kmax);
+  c14_arm(kmax);
+}
+static int c14_injected(void)
 {
   return c14_f != 0 && vp_alloc_calls >= c14_base + c14_f;
 }
